@@ -3,6 +3,7 @@
   PROPERTY THEOREMS ONLY.
 -/
 import SymfcModel.Lemmas.Api
+import SymfcModel.Gen.SolverState
 namespace Symfc.C12
 open Symfc
 
@@ -118,5 +119,24 @@ def demoState : ApiState :=
 example : ((solveStep genApiCfg demoState none (some [3, 2]) true).1 != demoState) = true ∧
     (solveStep genApiCfg demoState none (some [3, 2]) true).2 = none := by
   constructor <;> decide
+
+/-- C12.f (solver OBJECTS, extracted from the six solver classes): the result accessors (`full_fc`, `compact_fc`,
+    `_recover_fcs`) read nothing but the coefficients of the last solve (and the constructor inputs), they and every
+    other non-solve method write nothing, `solve` writes nothing but the coefficients, and the constructors create no
+    further state — so there is no place where a previous solve could survive. -/
+theorem solver_objects_keep_only_the_coefficients :
+    Gen.solverObjectState.map (·.1) = ["O2", "O3", "O4", "O2O3", "O3O4", "O2O3O4"] ∧
+    Gen.solverObjectState.all (fun r => r.2.1 == ["_coefs"] && r.2.2.1 == [] && r.2.2.2.1 == ["_coefs"]
+      && r.2.2.2.2 == []) = true := by decide
+
+/-- … and the consequence for a re-used solver object: model the object as the one field `coefs` that `solve`
+    overwrites with a function `fit` of the (fixed) basis sets and the dataset of that call, and the accessor as a
+    function `expand` of the basis sets and that field. After ANY sequence of solves the accessor returns what a
+    fresh object returns for the LAST dataset alone. -/
+theorem reused_solver_object_equals_fresh {B D C R : Type} (fit : B → D → C) (expand : B → C → R) (b : B)
+    (history : List D) (last : D) (c₀ : Option C) :
+    ((history ++ [last]).foldl (fun (_ : Option C) d => some (fit b d)) c₀).map (expand b) =
+      (([last] : List D).foldl (fun (_ : Option C) d => some (fit b d)) none).map (expand b) := by
+  simp [List.foldl_append]
 
 end Symfc.C12
